@@ -433,6 +433,9 @@ impl DrawExecutor {
     }
 
     fn draw_poly(&mut self, parameters: &[i32]) {
+        if parameters.len() < 2 {
+            return;
+        }
         let mut x = parameters[0];
         let mut y = parameters[1];
         let mask = self.line_type.get_mask();
@@ -450,6 +453,9 @@ impl DrawExecutor {
     }
 
     fn draw_polyline(&mut self, parameters: &[i32]) {
+        if parameters.len() < 2 {
+            return;
+        }
         let mut x = parameters[0];
         let mut y = parameters[1];
         let mask = self.line_type.get_mask();
@@ -466,6 +472,9 @@ impl DrawExecutor {
 
     fn fill_poly(&mut self, points: &[i32]) {
         let max_vertices = 512;
+        if points.len() < 2 {
+            return;
+        }
 
         let mut i = 3;
         let mut y_max = points[1];
@@ -869,8 +878,8 @@ impl CommandExecutor for DrawExecutor {
                     return Err(anyhow::anyhow!("PolyFill requires minimun 1 arguments"));
                 }
                 let points: i32 = parameters[0];
-                if points * 2 + 1 != parameters.len() as i32 {
-                    return Err(anyhow::anyhow!("PolyFill requires {} arguments was {} ", points * 2 + 1, parameters.len()));
+                if points.saturating_mul(2).saturating_add(1) != parameters.len() as i32 {
+                    return Err(anyhow::anyhow!("PolyFill requires {} arguments was {} ", points.saturating_mul(2).saturating_add(1), parameters.len()));
                 }
                 self.fill_poly(&parameters[1..]);
                 if self.draw_border {
@@ -884,8 +893,8 @@ impl CommandExecutor for DrawExecutor {
                     return Err(anyhow::anyhow!("PolyLine requires minimun 1 arguments"));
                 }
                 let points: i32 = parameters[0];
-                if points * 2 + 1 != parameters.len() as i32 {
-                    return Err(anyhow::anyhow!("PolyLine requires {} arguments was {} ", points * 2 + 1, parameters.len()));
+                if points.saturating_mul(2).saturating_add(1) != parameters.len() as i32 {
+                    return Err(anyhow::anyhow!("PolyLine requires {} arguments was {} ", points.saturating_mul(2).saturating_add(1), parameters.len()));
                 }
                 self.draw_polyline(&parameters[1..]);
                 self.cur_position = Position::new(parameters[parameters.len() - 2], parameters[parameters.len() - 1]);
@@ -1120,7 +1129,12 @@ impl CommandExecutor for DrawExecutor {
                 Ok(CallbackAction::Update)
             }
 
-            IgsCommands::TimeAPause => Ok(CallbackAction::Pause(1000 * parameters[0] as u32)),
+            IgsCommands::TimeAPause => {
+                if parameters.len() != 1 {
+                    return Err(anyhow::anyhow!("TimeAPause command requires 1 argument"));
+                }
+                Ok(CallbackAction::Pause(1000_u32.saturating_mul(parameters[0].clamp(0, 30) as u32)))
+            }
 
             IgsCommands::PolymarkerPlot => {
                 if parameters.len() != 2 {
